@@ -139,3 +139,14 @@ Definition run_avgpool_via_unfold g (x : list Z) : list Q :=
   let xf := qof4 (gC g) (gH g) (gW g) (injl x) in
   map (fun q => let '(n, c, wi, wj) := q in
          sdiv (isum (zr (kH g * kW g)) (fun t => unfold_fwd g 0%Q xf (n, c * (kH g * kW g) + t, wi * oW g + wj))) (kH g * kW g)) (Jout2 g).
+
+(* two applications of the same op (shared weights) before the backward passes: the gradients of shared operands add up *)
+Definition ladd (a b : list Z) : list Z := map (fun p => fst p + snd p) (combine a b).
+Definition run_conv2d_bwd2 g (Co : Z) (x1 x2 w u1 u2 : list Z) : list Z * list Z * list Z * list Z :=
+  let '(a1, w1, b1) := run_conv2d_bwd g Co x1 w u1 in
+  let '(a2, w2, b2) := run_conv2d_bwd g Co x2 w u2 in (a1, a2, ladd w1 w2, ladd b1 b2).
+Definition run_conv1d_bwd2 g (Co : Z) (x1 x2 w u1 u2 : list Z) : list Z * list Z * list Z * list Z :=
+  let '(a1, w1, b1) := run_conv1d_bwd g Co x1 w u1 in
+  let '(a2, w2, b2) := run_conv1d_bwd g Co x2 w u2 in (a1, a2, ladd w1 w2, ladd b1 b2).
+Definition quad_eqb (a b : list Z * list Z * list Z * list Z) : bool :=
+  let '(a1, a2, a3, a4) := a in let '(b1, b2, b3, b4) := b in zl_eqb a1 b1 && zl_eqb a2 b2 && zl_eqb a3 b3 && zl_eqb a4 b4.
